@@ -24,7 +24,7 @@ from impl_prog import Duck
 from jaxtyping import Float, PyTree, jaxtyped
 
 LEVEL = "proof"
-THEOREMS = ["C12_rest_invariant", "C12_check_flags", "C12_pure_verdict", "C12_generated_good", "C12_facts_matter"]
+THEOREMS = ["C12_rest_invariant", "C12_check_flags", "C12_pure_verdict", "C12_generated_good", "C12_facts_matter", "C12_no_other_state"]
 RULE = (
     "fault runs = catalogue operation (array check, PyTree check with/without structure name, nested "
     "PyTree, decorated call of 3 flavours, context block) x call-out point (argument formatting in a "
@@ -293,6 +293,7 @@ def run(tier, seed, out, drv, facts):
         evaluate_after(out, f"direct:{name}:{cls}", f"fault of class {cls} at {name}", {"operation": name, "class": cls})
     other_thread_cases(out)
     annotation_reuse_cases(out)
+    pickling_cases(out)
     # --- random histories of public-API operations, then probes
     n = 30000 if thorough else 200
     extra = history_ops(rng)
@@ -370,6 +371,34 @@ def annotation_reuse_cases(out):
                       {"scenario": "annotation-reuse", "dims": "{size}"})
 
 
+def pickling_cases(out):
+    """pickling is unrelated activity too: a round trip of one annotation changes no other annotation, loaded before or after"""
+    from jaxtyping import Shaped
+
+    nested = Shaped[Float[Duck, "cols"], "rows"]
+    plain = Shaped[Duck, "rows cols"]
+    i32, f32 = Duck((2, 3), "int32"), Duck((2, 3), "float32")
+
+    def verdicts(a):
+        return [impl.check_once(i32, a), impl.check_once(f32, a)]
+
+    for order in ("plain-first", "nested-first"):
+        before = verdicts(plain), verdicts(nested)
+        if order == "plain-first":
+            p1 = pickle.loads(pickle.dumps(plain))
+            n1 = pickle.loads(pickle.dumps(nested))
+        else:
+            n1 = pickle.loads(pickle.dumps(nested))
+            p1 = pickle.loads(pickle.dumps(plain))
+        after = verdicts(plain), verdicts(nested)
+        loaded = verdicts(p1), verdicts(n1)
+        want = (["T", "T"], ["F", "T"])
+        out.case(("pickling", order), True, sample={"order": order, "before": before, "after": after, "loaded": loaded})
+        if before != want or after != want or loaded != want:
+            out.violation(f"pickling:{order}", f"Shaped[Duck,'rows cols'] / Shaped[Float[Duck,'cols'],'rows'] on (int32, float32) arrays: before the round trips {before}, "
+                          f"after {after}, the loaded copies {loaded}; all must be {want}", {"scenario": "pickling", "order": order})
+
+
 def other_thread_cases(out):
     """activity that is still going on in ANOTHER thread is unrelated activity too: a context open there (a call in
     progress, a thread parked inside `with jaxtyped("context")`) must not be visible to the probes here. Made
@@ -429,6 +458,7 @@ def replay(rep, out, drv, facts):
     if "scenario" in rep:
         other_thread_cases(out)
         annotation_reuse_cases(out)
+        pickling_cases(out)
         return
     if "program" in rep:
         got, _ = impl_prog.run_program(rep["program"], "typeguard", None, reset=False)
